@@ -136,9 +136,10 @@ impl BcSel {
             BcSel::Individual(v) => {
                 let mut shape = vec![1usize];
                 shape.extend_from_slice(trailing);
-                Bc::Individual(
-                    ArrayD::from_shape_vec(IxDyn(&shape), v.iter().map(|l| l.row::<T>()).collect()).unwrap(),
-                )
+                // the memory layout of the boundary array is varied too (a function of its content)
+                let logical = ArrayD::from_shape_vec(IxDyn(&shape), v.iter().map(|l| l.row::<T>()).collect()).unwrap();
+                let h = v.iter().fold(shape.len() as u64 ^ 0xB0, |h, l| crate::common::splitmix(h ^ (l.ends().0.value().to_bits() ^ l.ends().1.value().to_bits().rotate_left(7) ^ l.name().len() as u64)));
+                Bc::Individual(crate::layout::realise(logical, crate::layout::lay_from_hash(h), RowBoundary::Natural))
             }
         }
     }
